@@ -57,6 +57,7 @@ def opOfRec (r : Rec) : Option (Op Float) :=
   | "addmod" => some (.add t { name := r.nat "name", source := r.int "src", dur := r.int "dur", count := r.int "count",
                                maxCount := r.int "max", countAdd := r.int "cadd", tickImm := r.bool "imm",
                                stats := parseStats (r.str "stats"), weak := parseWeak (r.str "weak"),
+                               dres := parseStats (r.str "dres"),
                                chance := if r.has "chance" then [r.flt "chance"] else [] })
   | "rm" => some (.remove t (r.nat "name"))
   | "rmsrc" => some (.removeFromSource t (r.int "src") (r.nat "name"))
@@ -104,7 +105,10 @@ def spdOf (base : List (Nat × Float)) (l : List (Inst Float)) : Float :=
   let v := propTotal base l 13 * (1 + propTotal base l 14) + (propTotal base l 15 + propTotal base l 16)
   if v < 0 then 0 else v
 
-def listRec (s : St Float) (t : Int) : Rec :=
+/-- the units' own resistances as the harness registers them -/
+def baseDres (t : Int) : List (Nat × Float) := if t == 2 then [(100, 0.5), (103, 0.25)] else []
+
+def listRec (cat : Catalog Float) (s : St Float) (t : Int) : Rec :=
   let l := s.targets t
   let joinI (f : Inst Float → Int) := l.map f
   let atkpct := propTotal (baseOf t) l 6
@@ -121,6 +125,10 @@ def listRec (s : St Float) (t : Int) : Rec :=
     |>.addF "atk" (if out < 0 then 0 else out) |>.addF "spd" (spdOf (baseOf t) l) |>.addF "cc" (propTotal (baseOf t) l 17)
     |>.addS "weaks" (";".intercalate (l.map fun i => weakStr i.weak))
     |>.addIs "weak" (((List.range 8).filter fun d => d ≥ 1 && weakTo (baseWeak t) l d).map Int.ofNat)
+    |>.addS "dress" (";".intercalate (l.map fun i => if statsStr i.dres == "" then "-" else statsStr i.dres))
+    |>.addIs "scounts" ([0, 1, 2].map fun k => Int.ofNat (statusCount cat l k))
+    |>.addIs "flags" (([1, 100, 101, 103].filter fun f => hasFlag cat l f).map Int.ofNat)
+    |>.addFs "dres" ([100, 101, 103].map fun f => debuffRes (dresTotal (baseDres t) l) [f])
 
 /-- oracle input of the model: for a random dispel, which candidates the run's shuffle put first —
 read off the implementation's attached list after the operation (the candidates that are gone) -/
@@ -142,14 +150,14 @@ def withShuffle (d : DSt) (op : Rec) (obs : List Rec) : DSt :=
 
 def stepRec (d : DSt) (r : Rec) : DSt × List Rec × List String :=
   if r.name == "cat" then ({ d with cat := d.cat ++ [cfgOfRec r] }, [], [])
-  else if r.name == "mutsnap" then (d, [1, 2, 3].map (listRec d.st ·), ["mutsnap"])
+  else if r.name == "mutsnap" then (d, [1, 2, 3].map (listRec d.cat d.st ·), ["mutsnap"])
   else
   match opOfRec r with
   | none => (d, [Rec.mk' "badop"], [])
   | some op =>
     -- the resist roll's inputs: the scripted generator of this operation and the units' hit rate / resistances
     -- as the harness registers them (base stats; no harness modifier changes them)
-    let dresOf : Int → List (Nat × Float) := fun t => if t == 2 then [(100, 0.5), (103, 0.25)] else []
+    let dresOf : Int → List (Nat × Float) := baseDres
     let s0 : St Float := { d.st with trace := [], draws := r.flts "draws",
                                      ehr := [(1, 0.2 + 0.1)], eres := [(2, 0.2 + 0.1)], dres := dresOf }
     match exec d.cat 60 s0 op with
@@ -167,6 +175,6 @@ def stepRec (d : DSt) (r : Rec) : DSt × List Rec × List String :=
         | .added _ i => some s!"added-s{(cfgOf d.cat i.name).stacking}"
         | .err k => some ("e-" ++ k)
         | _ => none
-      ({ d with st := s' }, evs.map evRec ++ [1, 2, 3].map (listRec s' ·), (r.name :: tags).eraseDups)
+      ({ d with st := s' }, evs.map evRec ++ [1, 2, 3].map (listRec d.cat s' ·), (r.name :: tags).eraseDups)
 
 end ModAdapter
